@@ -20,6 +20,8 @@ from predicate.root_predicate import RootPredicate
 from predicate.standard_predicates import has_key_p
 from predicate.this_predicate import ThisPredicate
 
+from ipaddress import IPv4Address, IPv4Network, IPv6Address, IPv6Network  # noqa: F811
+
 from . import lift
 
 _tee_fns = [lambda x: None, lambda x: None]
@@ -216,6 +218,13 @@ def oracle_only_thunks():
     T.append(("in {(((1, 2),),)}", lambda: in_p((((1, 2),),))))
     T.append(("in {frozenset({(1, 2)})}", lambda: in_p(frozenset({(1, 2)}))))
     T.append(("not_in {(1, 2), (3, 4)}", lambda: not_in_p((1, 2), (3, 4))))
+    # the library's own address / network property predicates, as the objects a user imports
+    import predicate.ip_address_predicates as _ip
+
+    for _n in sorted(vars(_ip)):
+        _o = getattr(_ip, _n)
+        if _n.endswith("_p") and callable(_o) and hasattr(_o, "getter"):
+            T.append((f"ip_address_predicates.{_n}", lambda _o=_o: _o))
 
     return T
 
@@ -269,7 +278,9 @@ def composite_thunks(rng, atoms, n):
     return out
 
 
-PROBE_VALUES = [(1, 2), ((1, 2),), (((1, 2),),), frozenset({(1, 2)}), frozenset({1, 2}), frozenset({1}), "ab", "b", "cafe\u0301", "caf\u00e9", [0], [None], [""], [[]], (0,), {0}, [0, 0], (None, 0), [False], 0, 0.5, 1, 1.5, 2, 2.5, 3, 3.5, True, False, None, "a", "", "foo", "foobar", "bar", "FOO", "Foobar", "aaa", [], [1], [1, 2], (1,), (1, "a"), ("a", 1), (), {1}, {1, 2}, set(), {"a": 1}, {"a": 1, "b": "x"}, {}, {"b": 2}, {1: 1}]
+PROBE_VALUES = [IPv4Address("100.64.0.1"), IPv4Address("10.0.0.1"), IPv4Address("8.8.8.8"), IPv4Address("127.0.0.1"), IPv4Address("169.254.1.1"), IPv4Address("224.0.0.1"), IPv4Address("0.0.0.0"),
+                IPv6Address("::1"), IPv6Address("2001:db8::1"), IPv6Address("2606:4700::1111"), IPv6Address("fe80::1"), IPv6Address("64:ff9b::1"), IPv4Network("100.64.0.0/30"), IPv4Network("10.0.0.0/30"), IPv4Network("8.8.8.0/30"), IPv6Network("2001:db8::/126"), IPv6Network("fc00::/126"),
+                (1, 2), ((1, 2),), (((1, 2),),), frozenset({(1, 2)}), frozenset({1, 2}), frozenset({1}), "ab", "b", "cafe\u0301", "caf\u00e9", [0], [None], [""], [[]], (0,), {0}, [0, 0], (None, 0), [False], 0, 0.5, 1, 1.5, 2, 2.5, 3, 3.5, True, False, None, "a", "", "foo", "foobar", "bar", "FOO", "Foobar", "aaa", [], [1], [1, 2], (1,), (1, "a"), ("a", 1), (), {1}, {1, 2}, set(), {"a": 1}, {"a": 1, "b": "x"}, {}, {"b": 2}, {1: 1}]
 
 
 def constants_of(p, depth=0, acc=None):
